@@ -30,6 +30,13 @@ type RunnableProcessor struct {
 	*Instance
 	proc sdk.Processor
 	cond *processorCondition
+
+	// settings is the configuration this runnable was built from, captured
+	// when it is created. Open must not read Instance.Config: the instance is
+	// shared with the service, which replaces its Config when the stored
+	// configuration of a running processor is updated (UpdateWhileRunning) -
+	// possibly while the node that owns this runnable is still opening it.
+	settings map[string]string
 }
 
 func newRunnableProcessor(
@@ -41,6 +48,7 @@ func newRunnableProcessor(
 		Instance: i,
 		proc:     proc,
 		cond:     cond,
+		settings: maps.Clone(i.Config.Settings),
 	}
 }
 
@@ -51,7 +59,7 @@ func (p *RunnableProcessor) Open(ctx context.Context) error {
 	// its declared parameters does not reject the operator's egress opt-in as an
 	// "unrecognized parameter". The guest must never see host-reserved config
 	// (design: 20260726-wasm-host-egress-capability.md).
-	settings := maps.Clone(p.Config.Settings)
+	settings := maps.Clone(p.settings)
 	egress.StripReservedKeys(settings)
 
 	err := p.proc.Configure(ctx, settings)
